@@ -484,6 +484,125 @@ def believed_foldings(ctx):
     ctx.floor('constructions that receive a folded name', n_sites, 2)
 
 
+def deftype_ranges(ctx):
+    """DEFINT A-C, defint a-c, DEFINT a-C and DEFINT A-c mean the same
+    letters.  parse_deftype computes the range with ord()/range()/chr() on
+    the tokens as written and Pass1 lower-cases the resulting letters; the
+    outcome depends only on the case pattern of the two letters, so the four
+    patterns (and the single-letter form) decide it.  Interpreted from the
+    source on those tokens."""
+    from ..absint import (AbsObj, Interp, Closure, Env, Raised, Unmodelled,
+                          PathEnd, explore)
+    repo = ctx.repo
+    rule = 'C14.deftype-letter-range-ignores-case'
+    ctx.rule(rule, 'parse_deftype followed by Pass1.process_def_type_pre '
+             'yields, for the letter range a-c written in each of the four '
+             'case patterns (a-c, A-C, a-C, A-c) and for single letters, '
+             'exactly the letters {a, b, c} / {x} in lower case (both ends '
+             'included)')
+    g = repo.module('qbee.grammar')
+    f = g.functions.get('parse_deftype')
+    if f is None:
+        raise AnalysisError('anchor vanished: parse_deftype')
+    p1 = repo.func('qbee.compiler', 'Pass1.process_def_type_pre')
+
+    class Fn(AbsObj):
+        is_callable = True
+
+        def __init__(self, fn):
+            self.fn = fn
+
+        def call_(self, args, kwargs, interp):
+            return self.fn(*args, **kwargs)
+
+    class NS(AbsObj):
+        def __init__(self, prefix):
+            self.prefix = prefix
+
+        def getattr_(self, a, interp):
+            return f'{self.prefix}.{a}'
+
+    class Stmt(AbsObj):
+        def __init__(self, t, letters):
+            self.d = {'type': t, 'letters': list(letters)}
+
+        def getattr_(self, a, interp):
+            return self.d[a]
+
+    class Hooks:
+        def global_name(self, modname, name, interp):
+            if name == 'Type':
+                return NS('Type')
+            if name == 'DefTypeStmt':
+                return Fn(lambda t, letters: Stmt(t, letters))
+            if name in ('logger', 'logging'):
+                class Null(AbsObj):
+                    def getattr_(self, a, interp):
+                        return Fn(lambda *a, **k: None)
+                return Null()
+            raise KeyError(name)
+
+        def on_unknown_call(self, f_, args, kwargs, node, interp):
+            raise Unmodelled('unknown call')
+    cases = [([['a', 'c']], {'a', 'b', 'c'}), ([['A', 'C']], {'a', 'b', 'c'}),
+             ([['a', 'C']], {'a', 'b', 'c'}), ([['A', 'c']], {'a', 'b', 'c'}),
+             ([['x', None]], {'x'}), ([['X', None]], {'x'}),
+             ([['i', 'n'], ['Z', None]],
+              {'i', 'j', 'k', 'l', 'm', 'n', 'z'})]
+    n = 0
+    for ranges, want in cases:
+        got_box = {}
+
+        def run(oracle, ranges=ranges):
+            interp = Interp(Hooks(), oracle)
+            try:
+                st = Closure(f.node, Env(None, globals_='qbee.grammar'),
+                             name='parse_deftype').call_(
+                    [['defint'] + [list(r) for r in ranges]], {}, interp)
+                table = {}
+
+                class Comp(AbsObj):
+                    def getattr_(self, a, interp):
+                        if a == 'def_letter_types':
+                            return table
+                        raise Unmodelled(f'compilation.{a}')
+
+                class Self(AbsObj):
+                    def getattr_(self, a, interp):
+                        if a == 'compilation':
+                            return Comp()
+                        raise Unmodelled(f'pass.{a}')
+                Closure(p1.node, Env(None, globals_='qbee.compiler'),
+                        name='process_def_type_pre').call_(
+                    [Self(), st], {}, interp)
+                return ('ok', set(table))
+            except Raised as r:
+                return ('raise', r.cls_name, str(r.value)[:60])
+            except PathEnd as e:
+                return ('end', str(e))
+        label = ','.join(a + ('-' + b if b else '') for a, b in ranges)
+        construct = f'{f.file}:parse_deftype:{label}'
+        try:
+            res = [r for _, r in explore(run, 20)]
+        except Unmodelled as u:
+            ctx.observe(f'{construct}: not modelled ({u}); undecided')
+            ctx.instance(rule, construct, nontrivial=False)
+            continue
+        n += 1
+        ctx.instance(rule, construct, sample={'result': [
+            sorted(r[1]) if r[0] == 'ok' else r for r in res]})
+        for r in res:
+            if r[0] != 'ok' or r[1] != want:
+                ctx.finding(rule, construct,
+                            f'DEFINT {label} defines the letters '
+                            f'{sorted(r[1]) if r[0] == "ok" else r}; it '
+                            f'means {sorted(want)} (letter ranges are '
+                            f'case-insensitive and include both ends)',
+                            f.file, f.line)
+                break
+    ctx.floor('DEFtype range spellings interpreted', n, 6)
+
+
 def run(ctx):
     ctx.clauses = [
         'alphabetic terminals are case-insensitive',
@@ -498,6 +617,7 @@ def run(ctx):
     canonical_comparisons(ctx)
     identifier_folding(ctx)
     believed_foldings(ctx)
+    deftype_ranges(ctx)
     optional_syntax(ctx)
     labels_not_in_module(ctx)
     return ('Analysis of the pyparsing grammar as data: every terminal '
